@@ -67,12 +67,18 @@ Theorem parse_step_fragmentation_independent : forall (m1 m2 : msg) (bs1 bs2 : b
 Proof. exact append_bytes_two_splits_proof. Qed.
 Print Assumptions parse_step_fragmentation_independent.
 
-Theorem parse_depends_on_stale_byte_refuted :
-  exists (bytes : bytes) (fill1 fill2 : Z),
-    ret_of (receive_header 10 (msg_init false 16384 fill1 2) [bytes] false) = 0 /\
-    ret_of (receive_header 10 (msg_init false 16384 fill2 2) [bytes] false) = -1.
-Proof. exact parse_depends_on_stale_byte_refuted_proof. Qed.
-Print Assumptions parse_depends_on_stale_byte_refuted.
+Theorem header_parse_stale_byte_prefix_refuted :
+  exists (hb : bytes) (b1 b2 : Z),
+    (exists kvs, parse_loop_prefix 100 hb 100 (Some b1) 0 [] = Some (Some kvs)) /\
+    parse_loop_prefix 100 hb 100 (Some b2) 0 [] = Some None.
+Proof. exact header_parse_stale_byte_prefix_refuted_proof. Qed.
+Print Assumptions header_parse_stale_byte_prefix_refuted.
+
+Theorem header_compare_cyclic_prefix_refuted :
+  exists a b c : bytes,
+    icmp_with lower8_prefix a b = -1 /\ icmp_with lower8_prefix b c = -1 /\ icmp_with lower8_prefix c a = -1.
+Proof. exact header_compare_cyclic_prefix_refuted_proof. Qed.
+Print Assumptions header_compare_cyclic_prefix_refuted.
 
 Theorem parse_fragmentation_dependent_malformed_refuted :
   exists (bytes : bytes) (ps1 ps2 : pieces),
